@@ -112,3 +112,51 @@ Proof.
   pose proof (signal_assignments_from_source _ _ _ _ _ _ H) as E.
   apply (f_equal (@length _)) in E. rewrite !map_length in E. exact E.
 Qed.
+
+(* ---- the hypothesis in the form the driver evaluates ---- *)
+Require Model.SigAssignSource Proofs.SignalAssignProofs.
+
+Lemma source_signal_assignments_eq body :
+  SigAssignSource.source_signal_assignments body = source_signal_assignments body.
+Proof. reflexivity. Qed.
+
+Lemma meta_eqb_refl a : meta_eqb a a = true.
+Proof.
+  unfold meta_eqb. destruct a as [s e f]. simpl. rewrite !N.eqb_refl. destruct f; simpl; [apply N.eqb_refl|reflexivity].
+Qed.
+
+Lemma distinct_keys_NoDup (l : list meta) : distinct_keys meta_eqb l -> NoDup l.
+Proof.
+  intros H. apply NoDup_nth_error. intros i j Hi E.
+  destruct (Nat.eq_dec i j) as [|Hne]; [assumption|exfalso].
+  destruct (nth_error l i) as [a|] eqn:Ea; [|apply nth_error_Some in Hi; congruence].
+  symmetry in E. pose proof (H i j a a Hne Ea E) as F. rewrite meta_eqb_refl in F. discriminate F.
+Qed.
+
+Lemma NoDup_map_inv' {A B} (f : A -> B) l : NoDup (map f l) -> NoDup l.
+Proof.
+  induction l as [|a l IH]; simpl; intros H; [constructor|]. inversion H as [|? ? Hn Hr]; subst.
+  constructor; [|exact (IH Hr)]. intros Hin. apply Hn. apply in_map. exact Hin.
+Qed.
+
+(* the boolean the liftfull driver evaluates on every explored definition implies the
+   hypothesis of [distinct_sources_distinct_subkeys] *)
+Theorem source_metas_distinct_b_sound body :
+  SigAssignSource.source_metas_distinct_b body = true ->
+  NoDup (map Model.Ast.stmt_meta (source_signal_assignments body)).
+Proof.
+  unfold SigAssignSource.source_metas_distinct_b, SigAssignSource.source_assignment_metas. intros H.
+  apply SignalAssignProofs.pairwise_distinct_spec in H. apply distinct_keys_NoDup in H.
+  rewrite source_signal_assignments_eq in H.
+  change (fun s => LiftFull.lift_meta (Model.Ast.stmt_meta s)) with (fun s => ir_meta (Model.Ast.stmt_meta s)) in H.
+  rewrite <- (map_map Model.Ast.stmt_meta ir_meta) in H. exact (NoDup_map_inv' ir_meta _ H).
+Qed.
+
+Theorem distinct_sources_b_distinct_subkeys : forall kind params pfile ploc body c,
+  LiftFull.lift_to_ir kind params pfile ploc body = Ok c ->
+  SigAssignSource.source_metas_distinct_b body = true ->
+  subkeys_distinct c.
+Proof.
+  intros kind params pfile ploc body c H Hb.
+  exact (distinct_sources_distinct_subkeys _ _ _ _ _ _ H (source_metas_distinct_b_sound body Hb)).
+Qed.
